@@ -1080,7 +1080,7 @@ type HistGen struct {
 // extNewDir: plant foreign files inside directories the transaction created (C13, restoreFile /
 // restoreSymlink must not remove them recursively).  Switched on together with the fix: commit that
 // replaces RemoveAll by Remove there.
-const extNewDir = false
+const extNewDir = true
 
 func genHistCase(r *RNG, g HistGen, umask int) *HistCase {
 	c := &HistCase{Kind: "hist", Layering: g.Layering, Umask: umask, Mode: "admissible"}
